@@ -49,7 +49,26 @@ struct Requester {
 /// Starts S1 with `peer` as its only table entry, starts a lookup for `target` and returns the
 /// FINDNODE request S1 emits towards the peer.
 async fn start_lookup(peer_enr: Enr, target: NodeId) -> (Requester, v::RequestId, Vec<u64>) {
-    let mut node = SNode::start(SNodeSpec { keyno: REQUESTER, listen: listen(REQUESTER), enr: None }, |_| {}, true).await;
+    start_lookup_with(peer_enr, target, false).await
+}
+
+/// `ip_prebanned`: the responder's IP address is already on the ban list (an earlier offender behind
+/// the same address); answers to requests in flight still get through (expected responses pass the
+/// packet filter before the ban list is consulted).
+async fn start_lookup_with(peer_enr: Enr, target: NodeId, ip_prebanned: bool) -> (Requester, v::RequestId, Vec<u64>) {
+    let ip = std::net::IpAddr::V4(*peer_enr.udp4_socket().unwrap().ip());
+    let mut node = SNode::start(
+        SNodeSpec { keyno: REQUESTER, listen: listen(REQUESTER), enr: None },
+        |b| {
+            if ip_prebanned {
+                let mut l = discv5::PermitBanList::default();
+                l.ban_ips.insert(ip, Some(std::time::Instant::now() + std::time::Duration::from_secs(60)));
+                b.permit_ban_list(l);
+            }
+        },
+        true,
+    )
+    .await;
     let addr = NodeAddress { socket_addr: peer_enr.udp4_socket().unwrap().into(), node_id: peer_enr.node_id() };
     node.inject(HandlerOut::Established(peer_enr.clone(), addr.socket_addr, v::ConnectionDirection::Outgoing)).await;
     let _ = node.drain_handler_in(); // the service's own PING to the new peer stays unanswered
@@ -77,6 +96,12 @@ fn discovered(events: Vec<Event>) -> Vec<Enr> {
 fn banned(addr: &NodeAddress) -> bool {
     let l = v::ban_list_snapshot();
     l.ban_nodes.contains_key(&addr.node_id) || l.ban_ips.contains_key(&addr.socket_addr.ip())
+}
+
+/// "The responder is banned": the responder is a node, i.e. its id — a ban that only covers the
+/// address it currently uses ends when that address is unblocked or the node moves.
+fn node_banned(addr: &NodeAddress) -> bool {
+    v::ban_list_snapshot().ban_nodes.contains_key(&addr.node_id)
 }
 
 /* ------------------------------------------------------------------------------------ */
@@ -161,6 +186,8 @@ pub enum Sym {
 
 #[derive(Clone, Debug)]
 pub struct Shape {
+    /// the responder's IP is on the ban list before the answer arrives
+    pub ip_prebanned: bool,
     pub class: u64,
     /// (claimed total, records) per packet
     pub packets: Vec<(u64, Vec<Sym>)>,
@@ -192,7 +219,7 @@ async fn malicious(shape: &Shape) -> Result<Value, Violation> {
     let m_id = util::node_id(&util::key(RESPONDER));
     let m_enr = record(RESPONDER, 1, false, 0);
     let target = target_at(&m_id, shape.class);
-    let (mut s1, req_id, distances) = start_lookup(m_enr.clone(), target).await;
+    let (mut s1, req_id, distances) = start_lookup_with(m_enr.clone(), target, shape.ip_prebanned).await;
     let replay = json!({"engine":"ssim","check":"C11","world":"malicious","request":distances,"shape":format!("{:?}",shape)});
     let pool = malicious_pool(&m_id, &distances);
     let me = s1.node.discv5.local_enr();
@@ -250,7 +277,10 @@ async fn malicious(shape: &Shape) -> Result<Value, Violation> {
     }
     let got: BTreeSet<[u8; 32]> = discovered(s1.node.drain_events()).iter().map(|e| e.node_id().raw()).collect();
     let allowed: BTreeSet<[u8; 32]> = processed_on.iter().filter(|e| e.node_id() != s1.node.id).map(|e| e.node_id().raw()).collect();
-    let is_banned = banned(&s1.peer.1);
+    // offender: the node id must be banned; honest: neither its id nor its address (unless the
+    // address was blocked before)
+    let is_banned = if shape.ip_prebanned { node_banned(&s1.peer.1) } else { banned(&s1.peer.1) };
+    let id_banned = node_banned(&s1.peer.1);
     if let Some(h) = s1.lookup.take() {
         h.abort();
     }
@@ -265,6 +295,9 @@ async fn malicious(shape: &Shape) -> Result<Value, Violation> {
         let set: BTreeSet<[u8; 32]> = all.iter().copied().collect();
         set.len() == all.len()
     };
+    if expect_ban && !id_banned {
+        return Err(vio("a responder that returns records at other distances is banned", "nodes:id-not-banned", format!("request {:?}: the responder's node id is not on the ban list after an off-distance record was processed (its IP was {}blocked before)", distances, if shape.ip_prebanned { "" } else { "not " }), replay));
+    }
     if is_banned != expect_ban && (expect_ban || well_formed) {
         let key = if is_banned { "nodes:banned-without-cause" } else { "nodes:not-banned" };
         return Err(vio("a responder that returns records at other distances is banned (and only such a responder)", key, format!("request {:?}: banned={is_banned}, off-distance record processed={expect_ban}", distances), replay));
@@ -345,13 +378,13 @@ fn shapes(thorough: bool) -> Vec<Shape> {
     for class in &classes {
         for t in &totals {
             for a in &contents {
-                out.push(Shape { class: *class, packets: vec![(*t, a.clone())], then_fail: false });
-                out.push(Shape { class: *class, packets: vec![(*t, a.clone())], then_fail: true });
+                out.push(Shape { ip_prebanned: false, class: *class, packets: vec![(*t, a.clone())], then_fail: false });
+                out.push(Shape { ip_prebanned: false, class: *class, packets: vec![(*t, a.clone())], then_fail: true });
                 for b in &contents {
-                    out.push(Shape { class: *class, packets: vec![(*t, a.clone()), (*t, b.clone())], then_fail: *t > 2 });
+                    out.push(Shape { ip_prebanned: false, class: *class, packets: vec![(*t, a.clone()), (*t, b.clone())], then_fail: *t > 2 });
                     if thorough || *t == 3 || *t == 2 || *t == u64::MAX {
                         for c in &contents {
-                            out.push(Shape { class: *class, packets: vec![(*t, a.clone()), (*t, b.clone()), (*t, c.clone())], then_fail: *t > 3 });
+                            out.push(Shape { ip_prebanned: false, class: *class, packets: vec![(*t, a.clone()), (*t, b.clone()), (*t, c.clone())], then_fail: *t > 3 });
                         }
                     }
                 }
@@ -363,7 +396,7 @@ fn shapes(thorough: bool) -> Vec<Shape> {
                     for b in &contents {
                         for c in &contents {
                             for d in &contents {
-                                out.push(Shape { class: *class, packets: vec![(t, a.clone()), (t, b.clone()), (t, c.clone()), (t, d.clone())], then_fail: t > 4 });
+                                out.push(Shape { ip_prebanned: false, class: *class, packets: vec![(t, a.clone()), (t, b.clone()), (t, c.clone()), (t, d.clone())], then_fail: t > 4 });
                             }
                         }
                     }
@@ -372,8 +405,8 @@ fn shapes(thorough: bool) -> Vec<Shape> {
         }
         // inconsistent totals
         for a in &contents {
-            out.push(Shape { class: *class, packets: vec![(3, a.clone()), (1, vec![Sym::OkB])], then_fail: false });
-            out.push(Shape { class: *class, packets: vec![(2, a.clone()), (3, vec![Sym::Bad]), (3, vec![Sym::OkB])], then_fail: false });
+            out.push(Shape { ip_prebanned: false, class: *class, packets: vec![(3, a.clone()), (1, vec![Sym::OkB])], then_fail: false });
+            out.push(Shape { ip_prebanned: false, class: *class, packets: vec![(2, a.clone()), (3, vec![Sym::Bad]), (3, vec![Sym::OkB])], then_fail: false });
         }
     }
     out
@@ -392,7 +425,10 @@ pub fn run(args: &[String]) {
             }
         }
     }
-    let shapes = shapes(thorough);
+    let mut shapes = shapes(thorough);
+    // the same answers from a responder whose IP address was blocked earlier
+    let again: Vec<Shape> = shapes.iter().filter(|s| thorough || s.packets.len() <= 2).map(|s| Shape { ip_prebanned: true, class: s.class, packets: s.packets.clone(), then_fail: s.then_fail }).collect();
+    shapes.extend(again);
     let floods: Vec<(u64, bool)> = vec![(256, false), (255, false), (256, true), (254, true)];
     if let Some((i, n)) = mc::shard() {
         let mut problems: Vec<Value> = vec![];
